@@ -860,6 +860,8 @@ func trees(maxN int) [][]int {
 type memExporter struct {
 	mu   sync.Mutex
 	got  map[trace.SpanID]int
+	sc   map[trace.SpanID]trace.SpanContext // what the exported span says about itself ...
+	par  map[trace.SpanID]trace.SpanContext // ... and about its parent
 	shut bool
 }
 
@@ -869,8 +871,12 @@ func (e *memExporter) ExportSpans(_ context.Context, spans []sdktrace.ReadOnlySp
 	if e.got == nil {
 		e.got = map[trace.SpanID]int{}
 	}
+	if e.sc == nil {
+		e.sc, e.par = map[trace.SpanID]trace.SpanContext{}, map[trace.SpanID]trace.SpanContext{}
+	}
 	for _, s := range spans {
 		e.got[s.SpanContext().SpanID()]++
+		e.sc[s.SpanContext().SpanID()], e.par[s.SpanContext().SpanID()] = s.SpanContext(), s.Parent()
 	}
 	return nil
 }
@@ -990,6 +996,7 @@ type execution struct {
 	shutErr     error
 	strangers   []trace.SpanID // exported span ids that no started span has
 	parentModel mctx
+	exportDiff  []string // exported span context / Parent() that differ from the started span and its parent
 }
 
 // execCouple runs one case: a fresh TracerProvider with a simple and a batch span processor,
@@ -1077,6 +1084,34 @@ func execCouple(c *coupleCase, spec *sspec, fromEnv bool) *execution {
 			}
 		}
 	}
+	// "traces stay connected": what reaches the exporter is the span that was started -- same span
+	// context -- and names as its parent the span it was started under (the external parent for the
+	// first node, nobody for a new root)
+	for i := range x.obs {
+		id := x.obs[i].sc.SpanID()
+		for _, e := range []*memExporter{expS, expB} {
+			e.mu.Lock()
+			esc, ok := e.sc[id]
+			epar := e.par[id]
+			e.mu.Unlock()
+			if !ok {
+				continue
+			}
+			if !esc.Equal(x.obs[i].sc) {
+				x.exportDiff = append(x.exportDiff, fmt.Sprintf("node %d: exported span context %v, the live span had %v", i, esc, x.obs[i].sc))
+			}
+			var wantPar trace.SpanContext
+			switch {
+			case i > 0:
+				wantPar = x.obs[c.tree[i]].sc
+			case !c.newRoot:
+				wantPar = trace.SpanContextFromContext(pctx)
+			}
+			if epar.TraceID() != wantPar.TraceID() || epar.SpanID() != wantPar.SpanID() || epar.IsValid() != wantPar.IsValid() {
+				x.exportDiff = append(x.exportDiff, fmt.Sprintf("node %d: exported Parent() %s/%s, started under %s/%s", i, epar.TraceID(), epar.SpanID(), wantPar.TraceID(), wantPar.SpanID()))
+			}
+		}
+	}
 	return x
 }
 
@@ -1110,6 +1145,9 @@ func judgeCouple(r *enum.R, c *coupleCase, spec *sspec, x *execution) {
 	if x.pan != nil {
 		r.FailHere("panic|tracer.Start/End/flush", cas(), "panic: %v", x.pan)
 		return
+	}
+	if len(x.exportDiff) > 0 {
+		r.FailHere("exported-span-disconnected", cas(), "%s", strings.Join(x.exportDiff, "; "))
 	}
 	exportsJudged := true
 	if x.flushErr != nil || x.shutErr != nil {
